@@ -2,6 +2,7 @@ import RSV.Props.C01
 import RSV.Props.C01leo
 import RSV.Props.C01leo16
 import RSV.Props.C01jerasure
+import RSV.Props.C04leoAll
 /-! C01 umbrella: the GF(2^8) matrix families (`RSV.Props.C01`) and the Leopard GF(2^8) certificate
 (`RSV.Props.C01leo`: `C01_leo8_cert`, `C01_leo8_any_d`) -/
 namespace RSV.Props.C01all
